@@ -24,8 +24,8 @@ Definition find_okb (s os : list byte) (x : op) : bool :=
   | _ => true
   end.
 
-Definition in_dom (s os : list byte) (x : op) : bool :=
-  cstrs_okb x && find_okb s os x &&
+Definition in_dom (same : bool) (s os : list byte) (x : op) : bool :=
+  cap_ok same x && cstrs_okb x && find_okb s os x &&
   match std_step s os x with Some _ => true | None => false end.
 
 (** what a caller observes of a step: the value of an observer *)
@@ -49,13 +49,16 @@ Proof.
 Qed.
 
 Section Refine7.
+(** capacity of the object and of the other object *)
 Variable L : N.
 Hypothesis HL : CapOk L.
+Variable Lo : N.
+Hypothesis HLo : CapOk Lo.
 
 (** the arguments of an operation inside the domain satisfy the caller contract of C10 *)
-Lemma dom_pre_A s o x r : Inv L o -> std_step (abs s) (abs o) x = Some r -> pre_A s o x = true.
+Lemma dom_pre_A s o x r : Inv Lo o -> std_step (abs s) (abs o) x = Some r -> pre_A s o x = true.
 Proof.
-  intros Ho H. pose proof (abs_len L o Ho) as Lao.
+  intros Ho H. pose proof (abs_len Lo o Ho) as Lao.
   destruct x; cbn [pre_A]; try reflexivity;
     cbn [std_step] in H; cbv zeta in H; unfold guard in H;
     match type of H with (if ?c then _ else _) = _ => destruct c eqn:D; [|discriminate] end;
@@ -66,7 +69,7 @@ Fixpoint run_D (s o : fs) (ops : list op) : res (fs * fs * list ret) :=
   match ops with
   | [] => Ok (s, o, [])
   | x :: rest =>
-      if in_dom (abs s) (abs o) x then
+      if in_dom (Lo =? L) (abs s) (abs o) x then
         do r <- step L s o x;
         let '(s', o', v) := r in
         do q <- run_D s' o' rest;
@@ -79,30 +82,30 @@ Fixpoint std_run (s os : list byte) (ops : list op) : list byte * list byte * li
   match ops with
   | [] => (s, os, [])
   | x :: rest =>
-      if in_dom s os x then
+      if in_dom (Lo =? L) s os x then
         match std_step s os x with
         | Some (s', os', r) =>
-            let '(a, b, vs) := std_run (cut L s') (cut L os') rest in (a, b, observed x r :: vs)
+            let '(a, b, vs) := std_run (cut L s') (cut Lo os') rest in (a, b, observed x r :: vs)
         | None => std_run s os rest
         end
       else std_run s os rest
   end.
 
 Theorem history_refines ops : forall s o,
-  Inv L s -> Inv L o -> Forall Bounded ops ->
-  exists s' o' vs, run_D s o ops = Ok (s', o', vs) /\ Inv L s' /\ Inv L o' /\
+  Inv L s -> Inv Lo o -> Forall Bounded ops ->
+  exists s' o' vs, run_D s o ops = Ok (s', o', vs) /\ Inv L s' /\ Inv Lo o' /\
                    std_run (abs s) (abs o) ops = (abs s', abs o', vs).
 Proof.
   induction ops as [|x rest IH]; intros s o Hs Ho HB; cbn [run_D std_run].
   - eexists _, _, _. split; [reflexivity|]. split; [assumption|]. split; [assumption|reflexivity].
   - apply Forall_cons_iff in HB. destruct HB as [Hx Hrest].
-    destruct (in_dom (abs s) (abs o) x) eqn:D; [|apply IH; assumption].
+    destruct (in_dom (Lo =? L) (abs s) (abs o) x) eqn:D; [|apply IH; assumption].
     unfold in_dom in D. apply andb_true_iff in D. destruct D as [D Dstd].
-    apply andb_true_iff in D. destruct D as [Dc Df].
+    apply andb_true_iff in D. destruct D as [D Df]. apply andb_true_iff in D. destruct D as [Dcap Dc].
     destruct (std_step (abs s) (abs o) x) as [[[cs' cos'] rs]|] eqn:Hstd; [|discriminate].
-    destruct (step_refines L HL s o x Hs Ho Hx (cstrs_okb_ok x Dc) (find_okb_ok s o x Df) cs' cos' rs Hstd)
+    destruct (step_refines L HL Lo HLo s o x Hs Ho Hx (cstrs_okb_ok x Dc) (find_okb_ok s o x Df) Dcap cs' cos' rs Hstd)
       as (s1 & o1 & r & E & A1 & A2 & Hobs).
-    destruct (step_safe L HL s o x Hs Ho Hx (dom_pre_A s o x _ Ho Hstd)) as (s2 & o2 & v2 & E2 & Hs1 & Ho1).
+    destruct (step_safe L HL Lo HLo s o x Hs Ho Hx (dom_pre_A s o x _ Ho Hstd) Dcap) as (s2 & o2 & v2 & E2 & Hs1 & Ho1).
     rewrite E in E2. injection E2 as <- <- <-.
     rewrite E. cbn [bind].
     destruct (IH s1 o1 Hs1 Ho1 Hrest) as (s' & o' & vs & Er & Hs' & Ho' & Hr).
